@@ -276,4 +276,6 @@ def generate(rng, tier, focus):
             acts.append(["unsub", 1])
         s1 = scen.script([rng.choice(items) for _ in range(rng.randrange(0, 4))], rng.choice(["c", ("e", 7), "s"]))
         cases.append((scn(srcs=[src([s1]), src([s1])], subjects=subj, handles=2, script_=acts), {"k": "hot"}))
+    import common
+    cases += common.conn_stress(rng, 2400 if thorough else 400)
     return cases
